@@ -18,7 +18,8 @@
 
 template <typename T>
 struct ModDigest {
-	std::size_t operator()(const T & v) const { return std::hash<T>()(v) % VH_K; }
+	// not idempotent on purpose: digesting an id once more (an id taken for a raw value) gives a different digest
+	std::size_t operator()(const T & v) const { return (std::hash<T>()(v) * 7 + 3) % VH_K; }
 };
 
 // a value storage supporting both == and <: remembers (type tag, canonical text)
